@@ -163,18 +163,16 @@ OffsN(g, p, i)  == VSub(g.nd, p.n, VScal(g.nd, p.d \div g.d, Node(g, i).n))     
 EdgesOrthogonal(g, i) == \A k, l \in 1..g.nd : k # l => Dot(g.nd, EdgeN(g, i, k), EdgeN(g, i, l)) = 0
 InCellCorner(g, p, i) ==
   \A k \in 1..g.nd : LET e == EdgeN(g, i, k)  t == Dot(g.nd, OffsN(g, p, i), e)  ee == Dot(g.nd, e, e) IN
-                     0 < t /\ t < p.d * ee \div g.d
+                     0 < t /\ t * g.d < p.d * ee
 InCellCentre(g, p, i) ==
   \A k \in 1..g.nd : LET e == EdgeN(g, i, k)  t == Dot(g.nd, OffsN(g, p, i), e)  ee == Dot(g.nd, e, e) IN
-                     -(p.d * ee \div g.d) < 2 * t /\ 2 * t < p.d * ee \div g.d
+                     -(p.d * ee) < 2 * t * g.d /\ 2 * t * g.d < p.d * ee
 
 -----------------------------------------------------------------------------
 (* Query points: the points whose frame coordinates are odd multiples of dx/4, from -3/4.dx to    *)
 (* (nx + 1/4).dx: off the borders of both kinds of cells, inside and outside the grid              *)
 
 QVals(n)   == { q \in (-3)..(4 * n + 1) : q % 2 = 1 }
-QVecs(g)   == { AsTup(g.nd, f) : f \in [1..g.nd -> UNION {QVals(g.nx[k]) : k \in 1..g.nd}] } \cap
-              { AsTup(g.nd, f) : f \in [k \in 1..g.nd -> QVals(g.nx[k])] }
 QSet(g)    == IF g.nd = 1 THEN { <<a>> : a \in QVals(g.nx[1]) }
               ELSE IF g.nd = 2 THEN { <<a, b>> : a \in QVals(g.nx[1]), b \in QVals(g.nx[2]) }
               ELSE { <<a, b, c>> : a \in QVals(g.nx[1]), b \in QVals(g.nx[2]), c \in QVals(g.nx[3]) }
@@ -218,7 +216,7 @@ ChildOk(g, ch) == \A k \in 1..g.nd : ch.nx[k] >= 1
 MultipleWhereParentIs(g, m, cell, ch) ==
   /\ \A j \in Indices(g.nd, ch.nx) :
        LET a == VMul(g.nd, j, m)  b == VAdd(g.nd, a, VSub(g.nd, m, Ones(g.nd))) IN
-       /\ InRange(g.nd, g.nx, a) /\ InRange(g.nd, g.nx, b)
+       /\ InRange(g.nd, g.nx, a) /\ (cell => InRange(g.nd, g.nx, b))
        /\ IF cell THEN VScal(g.nd, 2, ChildNode(g, ch, j).n) = VAdd(g.nd, ParentNodeK(g, a, ch.K).n, ParentNodeK(g, b, ch.K).n)
                   ELSE ChildNode(g, ch, j).n = ParentNodeK(g, a, ch.K).n
   /\ \A k \in 1..g.nd :        \* the child covers as much of the parent as whole blocks / steps allow
@@ -257,11 +255,15 @@ NodeList(g, ch) == [ns |-> [r \in 1..NTot(g.nd, ch.nx) |-> ChildNode(g, ch, IdxO
                     d  |-> g.d * ch.K]
 ChildFields(g, ch) == [nx |-> ch.nx, dx |-> [n |-> ch.du, d |-> ch.K], X0 |-> World(g, ch.u0, ch.K), XS |-> NodeList(g, ch)]
 
-GridCase(g) == [k |-> "grid", g |-> g, ntot |-> NTot(g.nd, g.nx), M |-> [n |-> g.n, d |-> g.d], rotated |-> B(IsRotated(g))]
+\* M = R (rows), MI = R^-1 = transpose (IsRotation is checked on the case)
+GridCase(g) == [k |-> "grid", g |-> g, ntot |-> NTot(g.nd, g.nx), M |-> [n |-> g.n, d |-> g.d],
+                MI |-> [n |-> Tup(g.nd, LAMBDA i : Tup(g.nd, LAMBDA j : g.n[j][i])), d |-> g.d],
+                rotated |-> B(IsRotated(g))]
 
 NodeCase(g, r) ==
   LET i == IdxOf(g.nd, g.nx, r) IN
-  [k |-> "node", g |-> g, rank |-> r, idx |-> i, X |-> Node(g, i), F |-> VMul(g.nd, i, g.dx)]
+  [k |-> "node", g |-> g, rank |-> r, idx |-> i, out |-> B(~InRange(g.nd, g.nx, i)),
+   X |-> Node(g, i), F |-> VMul(g.nd, i, g.dx)]          \* F = i*dx: coordinates before rotation and shift
 
 PointCase(g, q) ==
   LET p  == QPoint(g, q)
@@ -270,7 +272,8 @@ PointCase(g, q) ==
   [k |-> "point", g |-> g, q |-> q, P |-> p,
    cellq |-> Tup(g.nd, LAMBDA k : q[k] \div 4), pct4 |-> Tup(g.nd, LAMBDA k : q[k] % 4),
    ic |-> ic, oc |-> B(~InRange(g.nd, g.nx, ic)), rc |-> RankOrOut(g.nd, g.nx, ic), XC |-> Node(g, ic),
-   ii |-> ii, oi |-> B(~InRange(g.nd, g.nx, ii)), ri |-> RankOrOut(g.nd, g.nx, ii), XI |-> Node(g, ii)]
+   ii |-> ii, oi |-> B(~InRange(g.nd, g.nx, ii)), ri |-> RankOrOut(g.nd, g.nx, ii), XI |-> Node(g, ii),
+   iiclip |-> Tup(g.nd, LAMBDA k : IF ii[k] < 0 THEN 0 ELSE IF ii[k] >= g.nx[k] THEN g.nx[k] - 1 ELSE ii[k])]
 
 MultCase(g, kind, m, cell) ==
   LET ch == IF kind = "multiple" THEN Multiple(g, m, cell) ELSE Divider(g, m, cell)
@@ -291,20 +294,16 @@ SubCase(g, lo, hi) ==
    nx |-> f.nx, dx |-> f.dx, X0 |-> f.X0, XS |-> f.XS]
 
 \* all the query points of a grid at once (one migration grid -> points), in a fixed order
-SetToSeqBy(S, Key(_)) ==      \* S sorted by the injective integer key
-  LET n == Cardinality(S)
-      F[i \in 0..n] == IF i = 0 THEN <<>>
-                       ELSE LET done == {F[i-1][j] : j \in 1..(i-1)}
-                                x == CHOOSE y \in S \ done : \A z \in S \ done : Key(y) <= Key(z)
-                            IN Append(F[i-1], x)
-  IN F[n]
-QKey(g, q) == SumN(g.nd, LAMBDA k : (q[k] + 3) * (IF k = 1 THEN 1 ELSE IF k = 2 THEN 32 ELSE 1024))
+QCount(g) == Tup(g.nd, LAMBDA k : 2 * g.nx[k] + 3)
+QSeq(g)   == [t \in 1..NTot(g.nd, QCount(g)) |->
+                LET j == IdxOf(g.nd, QCount(g), t - 1) IN Tup(g.nd, LAMBDA k : 2 * j[k] - 3)]
 MigrateCase(g) ==
-  LET qs == SetToSeqBy(QSet(g), LAMBDA q : QKey(g, q)) IN
+  LET qs == QSeq(g) IN
   [k |-> "migrate", g |-> g,
    PS  |-> [ns |-> [t \in 1..Len(qs) |-> QPoint(g, qs[t]).n], d |-> 4 * g.d],
    rcs |-> [t \in 1..Len(qs) |-> RankOrOut(g.nd, g.nx, IdxCorner(g, QPoint(g, qs[t])))],
-   ris |-> [t \in 1..Len(qs) |-> RankOrOut(g.nd, g.nx, IdxCentre(g, QPoint(g, qs[t])))]]
+   ris |-> [t \in 1..Len(qs) |-> RankOrOut(g.nd, g.nx, IdxCentre(g, QPoint(g, qs[t])))],
+   ois |-> [t \in 1..Len(qs) |-> B(~InRange(g.nd, g.nx, IdxCentre(g, QPoint(g, qs[t]))))]]
 
 Limits(g) == { lh \in [1..g.nd -> (0..MaxNx) \X (0..MaxNx)] :
                  \A k \in 1..g.nd : lh[k][1] < lh[k][2] /\ lh[k][2] <= g.nx[k] }
@@ -313,13 +312,15 @@ CasesOf(g) ==
   (IF "node" \in Kinds THEN { NodeCase(g, r) : r \in 0..(NTot(g.nd, g.nx) - 1) } ELSE {})
   \cup (IF "point" \in Kinds THEN { PointCase(g, q) : q \in QSet(g) } ELSE {})
   \cup (IF "multiple" \in Kinds
-        THEN { c \in { MultCase(g, "multiple", m, cell) : m \in MultVecs(g.nd), cell \in BOOLEAN } : ChildOk(g, c.ch) }
+        THEN { MultCase(g, "multiple", mc[1], mc[2]) :
+                 mc \in { x \in MultVecs(g.nd) \X BOOLEAN : ChildOk(g, Multiple(g, x[1], x[2])) } }
         ELSE {})
   \cup (IF "divider" \in Kinds
         THEN { MultCase(g, "divider", m, cell) : m \in MultVecs(g.nd), cell \in BOOLEAN }
         ELSE {})
   \cup (IF "dilate" \in Kinds
-        THEN { c \in { DilateCase(g, mode, s) : mode \in {-1, 1}, s \in ShiftVecs(g.nd) } : ChildOk(g, c.ch) }
+        THEN { DilateCase(g, ms[1], ms[2]) :
+                 ms \in { x \in {-1, 1} \X ShiftVecs(g.nd) : ChildOk(g, Dilate(g, x[1], x[2])) } }
         ELSE {})
   \cup (IF "subgrid" \in Kinds
         THEN { SubCase(g, Tup(g.nd, LAMBDA k : lh[k][1]), Tup(g.nd, LAMBDA k : lh[k][2])) : lh \in Limits(g) }
@@ -331,7 +332,7 @@ CasesOf(g) ==
 
 NodeOk(c) ==
   LET g == c.g IN
-  /\ InRange(g.nd, g.nx, c.idx)
+  /\ InRange(g.nd, g.nx, c.idx) /\ c.out = 0
   /\ RankOf(g.nd, g.nx, c.idx) = c.rank                           \* rank -> indices -> rank
   /\ \A i \in Indices(g.nd, g.nx) : RankOf(g.nd, g.nx, i) = c.rank => i = c.idx   \* indices -> rank is injective
   /\ IdxCorner(g, c.X) = c.idx /\ IdxCentre(g, c.X) = c.idx        \* indices -> coordinates -> indices
@@ -347,6 +348,7 @@ PointOk(c) ==
   /\ (c.oc = 1) = (c.rc = -1) /\ (c.oi = 1) = (c.ri = -1)
   /\ c.oc = 0 => IdxOf(g.nd, g.nx, c.rc) = c.ic
   /\ c.oi = 0 => IdxOf(g.nd, g.nx, c.ri) = c.ii
+  /\ InRange(g.nd, g.nx, c.iiclip) /\ (c.oi = 0 => c.iiclip = c.ii)
   /\ \A i \in Indices(g.nd, g.nx) : (InCellCorner(g, c.P, i) => i = c.ic) /\ (InCellCentre(g, c.P, i) => i = c.ii)
 
 DerivedOk(c) ==
@@ -360,8 +362,9 @@ CaseOk(c) ==
     [] c.k = "node" -> NodeOk(c)
     [] c.k = "point" -> PointOk(c)
     [] c.k \in {"multiple", "divider", "dilate", "subgrid"} -> DerivedOk(c) /\ Len(c.XS.ns) = NTot(c.g.nd, c.nx)
-    [] c.k = "migrate" -> Len(c.rcs) = Cardinality(QSet(c.g)) /\ Len(c.PS.ns) = Len(c.rcs)
+    [] c.k = "migrate" -> /\ Len(c.rcs) = Cardinality(QSet(c.g)) /\ Len(c.PS.ns) = Len(c.rcs)
+                          /\ {QSeq(c.g)[t] : t \in 1..Len(c.rcs)} = QSet(c.g)
 
-\* what is printed for the harness: the case without the internal fields
-GridOut(g) == [nd |-> g.nd, nx |-> g.nx, dx |-> g.dx, x0 |-> g.x0, ang |-> g.ang]
+\* what is printed for the harness
+GridOut(g) == g
 =============================================================================
